@@ -7,6 +7,7 @@ import (
 	"io"
 	"net"
 	"net/http"
+	"runtime"
 	"sync"
 	"sync/atomic"
 	"testing"
@@ -238,5 +239,133 @@ func FuzzClientBytes(f *testing.F) {
 		closed, v := feed(input)
 		kit.FuzzAccount("fuzz-client-bytes", fuzzRule, input, closed)
 		kit.FuzzFail(t, "C03", "fuzz-client-bytes", "FuzzClientBytes", v, input)
+	})
+}
+
+// ---------------------------------------------------------------- long client streams
+
+// RepCase is one well-formed message repeated many times on one connection.
+type RepCase struct {
+	Unit  int `json:"unit"`
+	Count int `json:"count"`
+	// CutAt: after this many repetitions the stream is cut short if the stacks
+	// of the process have not grown by then.
+	CutAt int `json:"cut_at"`
+}
+
+var repUnits = []struct {
+	name string
+	raw  []byte
+}{
+	{"plaintext-connect-under-mitm", []byte("CONNECT a.test:80 HTTP/1.1\r\nHost: a.test:80\r\n\r\n")},
+	{"get-absolute-form", []byte("GET http://healthy.test/r HTTP/1.1\r\nHost: healthy.test\r\n\r\n")},
+	{"options-asterisk", []byte("OPTIONS * HTTP/1.1\r\nHost: healthy.test\r\n\r\n")},
+	{"connect-then-get", []byte("CONNECT a.test:80 HTTP/1.1\r\nHost: a.test:80\r\n\r\nGET /x HTTP/1.1\r\nHost: a.test\r\n\r\n")},
+}
+
+// runRep streams Count copies of the unit to a MITM-configured proxy with the
+// default (5 minute) idle timeout. What one connection costs the process must
+// not grow with the number of messages it has carried: the stream is cut short
+// after CutAt repetitions if the stacks of the process have not grown by then;
+// otherwise it is sent in full (a process death is reported through the journal).
+func runRep(c RepCase) (v kit.Verdict) {
+	unit := repUnits[c.Unit%len(repUnits)]
+	healthy := netkit.NewOrigin(func(r *netkit.ReqLog) netkit.Script {
+		return netkit.Script{Raw: []byte(fmt.Sprintf("HTTP/1.1 200 OK\r\nContent-Length: %d\r\n\r\n%s", len(marker3), marker3)), CutAt: -1}
+	})
+	defer healthy.Close()
+	dialer := &netkit.Dialer{Route: func(addr string) string { return healthy.Addr }}
+	mc, _, err := netkit.MITM()
+	if err != nil {
+		return kit.Failf("C03/harness/mitm-setup", "%v", err)
+	}
+	p := martian.NewProxy() // default timeout: five minutes
+	p.SetDial(dialer.Dial)
+	p.SetMITM(mc)
+	pr := netkit.Start(p, nil)
+	defer pr.Stop(10 * time.Second)
+	conn, err := net.DialTimeout("tcp", pr.Addr, 5*time.Second)
+	if err != nil {
+		return kit.Failf("C03/harness/dial", "%v", err)
+	}
+	defer conn.Close()
+	var received int64
+	go func() {
+		buf := make([]byte, 64<<10)
+		for {
+			n, err := conn.Read(buf)
+			atomic.AddInt64(&received, int64(n))
+			if err != nil {
+				return
+			}
+		}
+	}()
+	// settled: the proxy has answered what it was sent so far (nothing new for 300 ms)
+	settled := func() {
+		last, since := int64(-1), time.Now()
+		for deadline := time.Now().Add(60 * time.Second); time.Now().Before(deadline); time.Sleep(20 * time.Millisecond) {
+			if now := atomic.LoadInt64(&received); now != last {
+				last, since = now, time.Now()
+			} else if time.Since(since) > 300*time.Millisecond {
+				return
+			}
+		}
+	}
+	var ms runtime.MemStats
+	runtime.GC() // stacks of goroutines that ended with earlier cases are released
+	runtime.ReadMemStats(&ms)
+	base := ms.StackInuse
+	chunk := bytes.Repeat(unit.raw, 1000)
+	sent := 0
+	for sent < c.Count {
+		conn.SetWriteDeadline(time.Now().Add(30 * time.Second))
+		if _, err := conn.Write(chunk); err != nil {
+			break // the proxy closed the connection: its right
+		}
+		sent += 1000
+		if sent == c.CutAt {
+			settled()
+			runtime.ReadMemStats(&ms)
+			if grown := int64(ms.StackInuse) - int64(base); grown < 4<<20 {
+				kit.Note("client-repetition", "a stream is cut short after 40 000 (thorough: 200 000) repetitions when the stacks of the process have grown by less than 4 MiB by then")
+				break
+			}
+		}
+	}
+	conn.Close()
+	cl, err := netkit.Dial(pr.Addr)
+	if err != nil {
+		return kit.Failf("C03/client-repetition/"+unit.name+"/proxy-dead", "fresh connection refused after %d repetitions: %v", sent, err)
+	}
+	defer cl.Close()
+	cl.Write([]byte("GET http://healthy.test/third HTTP/1.1\r\nHost: healthy.test\r\n\r\n"))
+	if res, _, err := cl.ReadResponse("GET", 3*kit.T()); err != nil || res.Status != 200 || string(res.Body) != marker3 {
+		class := "fresh-connection-not-served"
+		if netkit.IsTimeout(err) {
+			class = "timeout-fresh-connection"
+		}
+		v.Addf("C03/client-repetition/"+unit.name+"/"+class, "after %d repetitions of %q on one connection a fresh connection got %v / %+v", sent, unit.raw, err, res)
+	}
+	return v
+}
+
+var propRep = &kit.Prop[RepCase]{
+	ID: "C03", Name: "client-repetition", Journal: true,
+	Rule: "one well-formed message (plaintext CONNECT under MITM, GET, OPTIONS *, CONNECT followed by a request) repeated up to 600 000 times (15-30 MB) on one connection to a MITM-configured proxy with the default idle timeout; the process must survive and go on serving; non-trivial = always",
+	Run:  runRep, NonTrivial: func(RepCase) bool { return true },
+	Classes: func(c RepCase) []string { return []string{repUnits[c.Unit%len(repUnits)].name} },
+}
+
+func TestClientRepetition(t *testing.T) {
+	propRep.Enumerate(t, func(yield func(RepCase) bool) {
+		for u := range repUnits {
+			n, cut := 600000, kit.N(40000, 200000)
+			if u == 1 {
+				n, cut = 300000, kit.N(5000, 100000) // every repetition is a round trip to the origin
+			}
+			if !yield(RepCase{Unit: u, Count: n, CutAt: cut}) {
+				return
+			}
+		}
 	})
 }
